@@ -181,4 +181,50 @@ contract TargetsManager.saveTargets
              && (pathjoin(2, t.storeDir, storeFileName) in gFileComplete) == old(pathjoin(2, t.storeDir, storeFileName) in gFileComplete))
         || (pathjoin(2, t.storeDir, storeFileName) in gFileComplete && gFileContent[pathjoin(2, t.storeDir, storeFileName)] == gLastMarshal))
   modifies gFileContent, gFileComplete, gLastMarshal
+
+// ---------- the generated configuration (C11): only where targets come from may change ----------
+// "each job ... scrapes them through the sidecar proxy over plain http - the job's basic-auth and TLS settings are removed
+// ... while every ingestion-relevant setting (intervals, timeouts, params, honor flags, limits, metric relabeling) is kept":
+// the modifies clause below is the property - any store to another field of a scrape job fails the frame check
+contract Injector.injectJobs
+  requires i != nil && cfg != nil && (forall j in cfg.ScrapeConfigs :: j != nil) && i.curTargets != nil
+  requires forall jn, l in i.curTargets :: forall t in l :: t != nil
+  ensures[C11] @same_jobs_in_the_same_order len(cfg.ScrapeConfigs) == old(len(cfg.ScrapeConfigs)) && (forall k in 0..len(cfg.ScrapeConfigs) :: cfg.ScrapeConfigs[k] == old(cfg.ScrapeConfigs[k]) && cfg.ScrapeConfigs[k].JobName == old(cfg.ScrapeConfigs[k].JobName))
+  ensures[C11] @plain_http_through_the_proxy_without_job_credentials result == nil ==> (forall j in cfg.ScrapeConfigs :: j.Scheme == "http" && j.HTTPClientConfig.BearerToken == ""
+        && j.HTTPClientConfig.BasicAuth == nil && j.HTTPClientConfig.TLSConfig.CAFile == "" && j.HTTPClientConfig.TLSConfig.CertFile == "" && j.HTTPClientConfig.TLSConfig.KeyFile == ""
+        && j.HTTPClientConfig.TLSConfig.ServerName == "" && !j.HTTPClientConfig.TLSConfig.InsecureSkipVerify)
+  ensures[C11] @targets_only_from_one_static_entry result == nil ==> (forall j in cfg.ScrapeConfigs :: len(j.ServiceDiscoveryConfigs) == 1 && len(j.RelabelConfigs) == 1)
+  modifies github.com/prometheus/prometheus/config.ScrapeConfig.Scheme, github.com/prometheus/prometheus/config.ScrapeConfig.ServiceDiscoveryConfigs,
+           github.com/prometheus/prometheus/config.ScrapeConfig.RelabelConfigs, github.com/prometheus/prometheus/config.ScrapeConfig.HTTPClientConfig:ProxyURL,
+           github.com/prometheus/prometheus/config.ScrapeConfig.HTTPClientConfig:BearerToken, github.com/prometheus/prometheus/config.ScrapeConfig.HTTPClientConfig:BasicAuth,
+           github.com/prometheus/prometheus/config.ScrapeConfig.HTTPClientConfig:TLSConfig,
+           github.com/prometheus/prometheus/model/relabel.Config.* at {}, github.com/prometheus/prometheus/discovery/targetgroup.Group.* at {}, net/url.URL.* at {}
+  loop 1 invariant len(cfg.ScrapeConfigs) == old(len(cfg.ScrapeConfigs)) && (forall k in 0..len(cfg.ScrapeConfigs) :: cfg.ScrapeConfigs[k] == old(cfg.ScrapeConfigs[k]) && cfg.ScrapeConfigs[k] != nil && cfg.ScrapeConfigs[k].JobName == old(cfg.ScrapeConfigs[k].JobName))
+  loop 1 invariant forall k in 0..idx1 :: (cfg.ScrapeConfigs[k].Scheme == "http" && cfg.ScrapeConfigs[k].HTTPClientConfig.BearerToken == "" && cfg.ScrapeConfigs[k].HTTPClientConfig.BasicAuth == nil
+        && cfg.ScrapeConfigs[k].HTTPClientConfig.TLSConfig.CAFile == "" && cfg.ScrapeConfigs[k].HTTPClientConfig.TLSConfig.CertFile == "" && cfg.ScrapeConfigs[k].HTTPClientConfig.TLSConfig.KeyFile == ""
+        && cfg.ScrapeConfigs[k].HTTPClientConfig.TLSConfig.ServerName == "" && !cfg.ScrapeConfigs[k].HTTPClientConfig.TLSConfig.InsecureSkipVerify
+        && len(cfg.ScrapeConfigs[k].ServiceDiscoveryConfigs) == 1 && len(cfg.ScrapeConfigs[k].RelabelConfigs) == 1)
+
+// two facts about "%s%s" with the constant first operand "__param_" (string concatenation; assumed, no string theory):
+// it is injective in the second operand and never yields the label name "__scheme__"
+axiom forall x, y : int :: sprintf("%s%s", 2, "__param_", x, 0) == sprintf("%s%s", 2, "__param_", y, 0) ==> x == y
+axiom forall x : int :: sprintf("%s%s", 2, "__param_", x, 0) != "__scheme__"
+
+// one static group per assigned target, in order, carrying the routing parameters the proxy needs
+pred routedGroup(g, job, t) = g != nil && g.Labels != nil && len(g.Targets) == 1
+    && g.Labels["__scheme__"] == "http"
+    && g.Labels[sprintf("%s%s", 2, "__param_", "_jobName", 0)] == job
+    && ("__address__" in g.Targets[0])
+
+contract target2targetGroup
+  requires forall t in ts :: t != nil
+  ensures[C11] @one_group_per_assigned_target len(result) == len(ts) && fresh(result)
+  ensures[C11] @groups_route_through_the_proxy forall k in 0..len(result) :: routedGroup(result[k], job, ts[k])
+  modifies github.com/prometheus/prometheus/discovery/targetgroup.Group.* at {}, mapof(github.com/prometheus/prometheus/discovery/targetgroup.Group.Labels) at {},
+           elems(github.com/prometheus/prometheus/discovery/targetgroup.Group.Targets) at {}
+  loop 1 invariant len(ret) == idx1 && fresh(ret)
+  loop 1 invariant[C11] forall k in 0..idx1 :: (routedGroup(ret[k], job, ts[k]) && fresh(ret[k]) && allocated(ret[k]) && fresh(ret[k].Labels) && allocated(ret[k].Labels) && fresh(ret[k].Targets) && allocated(ret[k].Targets[0]) && fresh(ret[k].Targets[0]))
+  loop 2 invariant len(ret) == idx1 && fresh(ret) && ls != nil && fresh(ls)
+  loop 2 invariant[C11] forall k in 0..idx1 :: (routedGroup(ret[k], job, ts[k]) && fresh(ret[k]) && allocated(ret[k]) && fresh(ret[k].Labels) && allocated(ret[k].Labels) && fresh(ret[k].Targets) && allocated(ret[k].Targets[0]) && fresh(ret[k].Targets[0]))
+  loop 2 invariant forall k in 0..idx1 :: ret[k].Labels != ls
 @*/
